@@ -40,7 +40,14 @@ def cases(tier, seed):
             g0["cs"][0].append(list(g0["cs"][0][0]))
         ufo = {"glyphs": glyphs, "info": {"unitsPerEm": 1000, "ascender": 800, "descender": -200},
                "kerning": [[names[0], names[1], -40]], "kernScale": 1}
-        out.append({"cid": f"c12-{seed}-{k}", "lib": rng.choice(["ufoLib2", "defcon"]), "ufo": ufo})
+        case = {"cid": f"c12-{seed}-{k}", "lib": rng.choice(["ufoLib2", "defcon"]), "ufo": ufo}
+        if k % 3 == 2 and len(names) >= 3:
+            # production names that are other glyphs' current names (a rotation): the renamed font must still draw, index
+            # by index, what the combination without renaming draws
+            rot = rng.sample(names, 3)
+            ufo["lib"] = {"public.postscriptNames": {a_: b_ for a_, b_ in zip(rot, rot[1:] + rot[:1])}}
+            case["rename"] = True
+        out.append(case)
     # designspace paths: masters must stay unspecialised whatever level is asked for, the variable font is optimised as a whole
     for k in range(8 if tier == "quick" else 100):
         base = gen.glyphset(rng, nmin=3, nmax=6, max_depth=2, kinds=["line", "cubic", "mixed"], unicodes=True)
@@ -70,8 +77,15 @@ def execute(case):
         return recs
     recs = []
     base_layout = None
+    plain_order = None
+    if case.get("rename"):
+        plain = compile_exec.static_compile({"cid": case["cid"] + "/plain", "lib": case["lib"], "flavor": "cff", "ufo": case["ufo"],
+                                             "kwargs": {"useProductionNames": False, "optimizeCFF": 0}}, glyphsets=False)
+        plain_order = (plain.get("ret") or {}).get("order")
     for (o, s, v) in COMBOS:
         kwargs = {"optimizeCFF": o, "cffVersion": v}
+        if plain_order:
+            kwargs["useProductionNames"] = True
         if s is not None:
             kwargs["subroutinizer"] = s
         unsupported = (o == 2 and s == "compreffor" and v == 2)
@@ -81,6 +95,14 @@ def execute(case):
         if rec.get("skip"):
             recs.append(rec)
             continue
+        if plain_order and "order" in rec.get("ret", {}) and len(rec["ret"]["order"]) == len(plain_order):
+            # back to source names, index by index
+            back = dict(zip(rec["ret"]["order"], plain_order))
+            ret = rec["ret"]
+            ret["order"] = [back[n] for n in ret["order"]]
+            for key in ("adv", "outline"):
+                if key in ret:
+                    ret[key] = {back.get(n, n): val for n, val in ret[key].items()}
         lay = rec.pop("_layout", None)
         if lay is not None:
             if base_layout is None:
